@@ -3,6 +3,7 @@
 package c11
 
 import (
+	"bytes"
 	"fmt"
 	"testing"
 	"time"
@@ -496,8 +497,19 @@ func run(c Case) (v *vcore.Violation, stt stats) {
 			if o.Dead != nil {
 				return vcore.Violatef(o.Dead.Key, "event %d: UPF fatal exit: %.400s", i, o.Dead.Msg), stt
 			}
-			for _, m := range o.Msgs[nd] {
+			var answer []byte
+			for k, m := range o.Msgs[nd] {
 				if mr, ok := m.(*message.SessionModificationResponse); ok {
+					if ev.SendFail && k < len(o.Rx[nd]) {
+						// the write failure is switched off once the loop has served the first copy; on a busy machine the first copy may
+						// be served only afterwards, and then its answer arrives as well as the (identical) answer to the retransmission:
+						// one response, received twice
+						if answer != nil && bytes.Equal(answer, o.Rx[nd][k].B) {
+							stt.lostAnswers--
+							continue
+						}
+						answer = o.Rx[nd][k].B
+					}
 					if x := observe(i, ev.Sess, "SessionModificationResponse", mr); x != nil {
 						return x, stt
 					}
